@@ -1,9 +1,72 @@
 import QV.Driver.Util
+import QV.Model.Snapshot
+import QV.Spec.Snapshot
 
+/-!
+  ops of group `snapshot` (C32).
+
+  `snapobs <lo> <hi> <klo> <khi> <nrec> <j|-> <markers|-> <sig>` — one response observed in the
+      concurrent stress run.  Inputs recorded by the harness: the window of catalog generations
+      `lo..hi` and key generations `klo..khi` that can have been current while the request was
+      handled, the number of marked records the query kind yields, the generation `j` whose secret
+      signed the request (`-` = unsigned).  Observation: the comma-separated generation markers of
+      all answer/authority/additional records, and whether the MAC was accepted (`1`/`0`/`-`).
+      model: `ok` iff some interleaving of the model produces this response in that window
+      (`admits`, sound by `C32_window_admits`); spec: `ok` iff one snapshot, not stale.
+  `snapseq <step;step;…>` — sequential history: `c<g>` install catalog g, `k<g>` install keys g,
+      `q<nrec>` unsigned query, `t<j>:<nrec>` query signed with generation j.
+      result `ok <markers>/<sig>;…`.
+-/
 namespace QV.Driver
-open QV
+open QV QV.Snapshot
 
-/-- ops of group `snapshot` — stub (not built yet) -/
-def snapshotHandler : Handler := fun _ _ => none
+private def natList (s : String) : Option (List Nat) :=
+  if s = "-" then some [] else (s.splitOn ",").mapM (·.toNat?)
+
+private def optNat (s : String) : Option (Option Nat) :=
+  if s = "-" then some none else s.toNat?.map some
+
+private def optBool (s : String) : Option (Option Bool) :=
+  if s = "-" then some none else if s = "1" then some (some true) else if s = "0" then some (some false) else none
+
+private def showObs (m : List Nat) (sg : Option Bool) : String :=
+  (if m.isEmpty then "-" else ",".intercalate (m.map toString)) ++ "/" ++
+  (match sg with | none => "-" | some true => "1" | some false => "0")
+
+private def seqStep (s : String) : Option ((Bool × Nat) ⊕ (Nat × Option Nat)) :=
+  match s.toList with
+  | 'c' :: r => (String.ofList r).toNat?.map fun g => .inl (true, g)
+  | 'k' :: r => (String.ofList r).toNat?.map fun g => .inl (false, g)
+  | 'q' :: r => (String.ofList r).toNat?.map fun n => .inr (n, none)
+  | 't' :: r =>
+    match (String.ofList r).splitOn ":" with
+    | [j, n] => do let j ← j.toNat?; let n ← n.toNat?; pure (.inr (n, some j))
+    | _ => none
+  | _ => none
+
+def snapshotHandler : Handler := fun op args =>
+  match op, args with
+  | "snapobs", [lo, hi, klo, khi, nrec, j, ms, sg] =>
+    match lo.toNat?, hi.toNat?, klo.toNat?, khi.toNat?, nrec.toNat?, optNat j, natList ms, optBool sg with
+    | some lo, some hi, some klo, some khi, some nrec, some j, some ms, some sg =>
+      let m := if admits lo hi klo khi ⟨nrec, j⟩ ⟨ms, sg⟩ then "ok" else "err:inadmissible"
+      let s := match QV.Spec.Snapshot.obsVerdict lo hi klo khi nrec j ms sg with
+        | none => "ok"
+        | some w => "err:" ++ w
+      some (m, s)
+    | _, _, _, _, _, _, _, _ => some bad
+  | "snapseq", [steps] =>
+    match (steps.splitOn ";").mapM seqStep with
+    | some ops =>
+      let mops : List ((Nat ⊕ Nat) ⊕ GenReq) := ops.map fun
+        | .inl (true, g) => .inl (.inl g)
+        | .inl (false, g) => .inl (.inr g)
+        | .inr (n, sw) => .inr ⟨n, sw⟩
+      let m := runSeq genResp (fun r => r.signedWith.isSome) 0 0 mops
+      let s := QV.Spec.Snapshot.seqSpec 0 0 ops
+      some ("ok " ++ ";".intercalate (m.map fun o => showObs o.markers o.sig),
+            "ok " ++ ";".intercalate (s.map fun o => showObs o.1 o.2))
+    | none => some bad
+  | _, _ => none
 
 end QV.Driver
